@@ -1,6 +1,7 @@
 """C20 — at most one instance holds an unexpired replica lease."""
 import json
 import os
+import re
 
 from .. import common as C
 
@@ -11,7 +12,8 @@ F6_SIG = "C20/generation-restarts-at-1-after-release: A acquire(gen g); A releas
 
 MUTEX_CODES = {
     2: ("C20/two-live-holders",
-        "a client acquired or renewed successfully while another client holds an unexpired lease"),
+        "a client acquired or renewed successfully at an instant at which another client holds a lease that is "
+        "not expired at that instant (exact clock)"),
     3: ("C20/revoked-holder-renewed-or-released",
         "a client whose lease had been taken over renewed or released it successfully"),
     4: ("C20/generation-not-increased-on-takeover",
@@ -19,17 +21,36 @@ MUTEX_CODES = {
 }
 
 
-def gen_cases(v, out, part, parts):
+PINNED_GUARD = "!existing.IsExpired()"
+
+
+def acquire_guard():
+    """the condition under which AcquireLease refuses because a lease exists, as written in the source:
+    `if existing != nil && <guard> {`. Only used to decide how deep the boundary scope goes and recorded
+    in the evidence; a different text is not an alarm by itself."""
+    try:
+        src = open(os.path.join(C.REPO, "s3", "leaser.go")).read()
+        body = src[src.index("func (l *Leaser) AcquireLease("):]
+        body = body[:body.index("\nfunc ", 10)]
+        m = re.search(r"if existing != nil && (.*?) \{\n", body)
+        return m.group(1).strip() if m else None
+    except (OSError, ValueError):
+        return None
+
+
+def gen_cases(v, out, part, parts, deep=False):
     """one harness run = one part of the enumeration, written to a fresh directory"""
     for fn in ("cases.txt", "stats.json"):
         try:
             os.remove(os.path.join(out, fn))
         except FileNotFoundError:
             pass
-    n = 20000 if v.tier == "quick" else 0
     # the sub-command word is stripped by the harness' main before flag parsing
-    rc, o = C.sh([C.harness_bin("lease"), "lease", "-out", out, "-tier", v.tier, "-n", str(n), "-seed", str(v.seed),
-                  "-part", str(part), "-parts", str(parts)], timeout=6000)
+    cmd = [C.harness_bin("lease"), "lease", "-out", out, "-tier", v.tier, "-seed", str(v.seed),
+           "-part", str(part), "-parts", str(parts)]
+    if deep:
+        cmd.append("-deep")
+    rc, o = C.sh(cmd, timeout=6000)
     if rc == 0 and not (os.path.exists(os.path.join(out, "cases.txt")) and os.path.exists(os.path.join(out, "stats.json"))):
         return False, "harness exited 0 but wrote no cases.txt/stats.json under %s: %s" % (out, o[-500:])
     return rc == 0, o
@@ -71,8 +92,10 @@ def run(v):
     total, errors = 0, []
     buckets = {}   # (entry, oracle code) -> {"n": count, "best": shortest mismatching case (+ its lease_run line)}
     stats = None
+    guard = acquire_guard()
+    deep = guard != PINNED_GUARD     # the takeover guard was rewritten: search the boundary scope with two ticks
     for part in range(parts):
-        ok, o = gen_cases(v, out, part, parts)
+        ok, o = gen_cases(v, out, part, parts, deep)
         if not ok:
             v.violation("C20/harness-run", o[-1500:],
                         {"theorem_or_correspondence": "correspondence lease_run (harness run, part %d/%d)" % (part, parts)}, False)
@@ -106,7 +129,7 @@ def run(v):
                 stats["classes"][k] = stats["classes"].get(k, 0) + c
             for k, c in st.get("extra", {}).items():
                 if isinstance(c, int) and not isinstance(c, bool) and not k.endswith("maxlen"):
-                    if k.startswith("max_"):
+                    if "max_" in k:
                         stats["extra"][k] = max(stats["extra"].get(k, 0), c)
                     else:
                         stats["extra"][k] = stats["extra"].get(k, 0) + c
@@ -122,16 +145,27 @@ def run(v):
         "exhaustive": bool(extra.get("scope_2clients_exhaustive")),
         "traces_validated_against_impl": extra.get("schedules", 0),
         "rule": "the real s3.Leaser (one per client) over an in-memory S3 stub with If-Match / If-None-Match semantics "
-                "(ETag = md5 of the body); every storage request parks on a scheduler. Scope 1, exhaustive: 2 clients, "
-                "every pair (up to exchanging the clients) of a program over {acquire, renew, release} of length 1..%s "
-                "and a TTL sign (+1h live / -1h born expired), EVERY interleaving of their requests (stateless DFS, one "
-                "execution per complete schedule). Scope 2: 3 clients with programs of length <= 2 containing an acquire, "
-                "every interleaving of each chosen triple (quick: seeded sample of triples up to a schedule budget; "
-                "thorough: all triples). Per schedule three cases: lease_run (model = implementation on call results "
-                "in completion order + final store, timestamps reduced to live/expired) and the spec oracles "
-                "lease_mutex_ok / lease_gen_strict_ok on the implementation's own trace. distinct = distinct "
-                "(entry, input); non-trivial = lease_run cases in which at least two clients issued a storage request "
-                "and at least one call succeeded." % extra.get("scope_2clients_maxlen", "?"),
+                "(ETag = md5 of the body); every storage request parks on a scheduler; the run executes inside a "
+                "testing/synctest bubble, so the only clock the Leaser reads (time.Now) is exact and advances only by "
+                "the schedule's tick steps. A schedule = sequence of (execute the parked request of client i | tick d ns). "
+                "Scope 1, exhaustive: 2 clients, every pair (up to exchanging the clients) of a program over {acquire, "
+                "renew, release} of length 1..%s and a TTL of +1h / -1h, EVERY interleaving of their requests (stateless "
+                "DFS, one execution per complete schedule). Scope 2: 3 clients, programs of length <= 2 containing an "
+                "acquire, every interleaving of each chosen triple (quick: seeded sample; thorough: all triples). Scope 3, "
+                "exhaustive (boundary scope): 2 clients with TTL 10 s, programs of length 1..2 (thorough: ..3), every "
+                "interleaving and every placement of up to %s tick(s) between two requests with durations such that the "
+                "request is issued with 10s-1ns, 2s+1ns, 2s, 1s, 1ms, 1ns or 0 ns of validity left on the current lease, or "
+                "1 ns after its expiry. Scope 4: seeded random schedules, 2-3 clients, TTLs from {10s,3s,2s,1s,1ns,0,-1ns,"
+                "+-1h}, up to 4 ticks. Per schedule three cases: lease_run (model = implementation on call results in "
+                "completion order with ExpiresAt and completion time in ns since the start + final store) and the spec "
+                "oracles lease_mutex_ok (no acquire/renew succeeds at an instant at which another client's lease is "
+                "unexpired; revocation; generation on takeover) / lease_gen_strict_ok on the implementation's own trace. "
+                "distinct = distinct (entry, input); non-trivial = lease_run cases in which at least two clients issued a "
+                "storage request and at least one call succeeded."
+                % (extra.get("scope_2clients_maxlen", "?"), extra.get("scope_boundary_max_ticks", "?")),
+        "acquire_guard": {"source_text": guard, "is_pinned_form": not deep,
+                          "note": "takeover guard of AcquireLease as written in s3/leaser.go; a rewritten guard makes the "
+                                  "quick tier explore the boundary scope with two ticks"},
         "samples": stats["samples"],
         "input_distribution": stats["classes"],
         "scopes": extra,
